@@ -1,7 +1,8 @@
 SPEC = dict(
     props_file="C06",
     legs=[dict(family="cpc", focus="union", oracles=["union_ok"], profiles=["debug", "release"], n_quick=60, n_thorough=500,
-               n_search=40, panic_is_violation=True)],
+               n_search=40, panic_is_violation=True,
+               mask=[10, 11, 12, 13, 14, 15, 16, 20, 21, 22, 23])],     # op 17 (image bytes) is judged by the oracle only
     level_text="Theorems (Props/C06.v) over an executable model of cpc/union.rs (Model/CpcUnion.v: with_seed, update with reduce_k "
                "and the merge cases A (walk the sparse source into the accumulator, clone shortcut, graduation to a bit matrix), "
                "B, C, D, the three or_*_into_matrix helpers, walk_table_updating_sketch with row masking, to_sketch via the "
